@@ -166,7 +166,8 @@ class Models04(StateModels):
                     [VStr(z3.Concat(mk_str('VERSION Tor='), z3.String('version_text')))]
             return [(path, ex.new_list(path, lines))]
         if len(args) == 1 and concrete_of(args[0]) == (True, ','):
-            return [(path, VOpaque('methods', 5))]
+            # the advertised methods in Tor's order: four symbolic tokens (any subset, any order, repetitions allowed)
+            return [(path, ex.new_list(path, [VStr(z3.String('method%d' % i)) for i in range(4)]))]
         if len(args) == 2 and concrete_of(args[0]) == (True, ' '):
             return [(path, ex.new_list(path, [VStr(z3.String('methods_field')), VStr(z3.String('rest_of_auth_line'))]))]
         return StateModels.split_hook(self, ex, path, s, args, kw)
@@ -315,11 +316,14 @@ def unit_do_authenticate():
         pr = _proto(ctx, path)
         o = pr.oid
         path.heap[('g', 'summarise_read_cookie')] = True
-        adv = {m: z3.Bool('advertised_' + m) for m in METHODS}
+        MT = [z3.String('method%d' % i) for i in range(4)]
+        for i, t in enumerate(MT):
+            ctx.input('method%d' % i, VStr(t))
+        adv = {m: z3.Or(*[t == mk_str(m) for t in MT]) for m in METHODS}
         has_cf = z3.Bool('has_cookiefile_field')
         c_ok, c_io, c_bad = z3.Bool('cookie_readable_32'), z3.Bool('cookie_unreadable'), z3.Bool('cookie_wrong_length')
         has_pw = z3.Bool('has_password_provider')
-        for b in list(adv.values()) + [has_cf, c_ok, c_io, c_bad, has_pw]:
+        for b in [has_cf, c_ok, c_io, c_bad, has_pw]:
             ctx.input(str(b), VBool(b))
         # exactly one cookie-file condition
         path.assume(z3.Or(c_ok, c_io, c_bad))
